@@ -372,6 +372,59 @@ func init() {
 					c.Count("deep-chains", 1)
 					runClean(c, x, fmt.Sprintf("%s.%s %s depth %d via %s", k.Name, first, form, depth, cc.Inner), true)
 				}},
+				{Name: "same-id-twins", N: 3 * 5 * 3, Exhaustive: true, Run: func(c *Ctx, idx int) {
+					// separately embedded copies of one thing (same id, own private recipients) in two or three walked positions:
+					// a walk that skips what it "has already seen" by id leaves the second copy uncleaned
+					kind := []string{"Activity", "IntransitiveActivity", "Question"}[idx%3]
+					share := []string{"actor=object", "target=object", "target=actor", "all", "tag-members"}[(idx/3)%5]
+					shape := []string{"Actor", "Object", "Place"}[idx/15]
+					mk := func(n int) vocab.Item {
+						id := vocab.IRI("https://example.com/twins/one")
+						switch shape {
+						case "Actor":
+							return &vocab.Actor{ID: id, Type: vocab.PersonType, Name: vocab.NaturalLanguageValues{{Ref: vocab.NilLangRef, Value: vocab.Content(fmt.Sprintf("copy %d", n))}}}
+						case "Place":
+							return &vocab.Place{ID: id, Type: vocab.PlaceType, Latitude: float64(n)}
+						}
+						return &vocab.Object{ID: id, Type: vocab.NoteType, Summary: vocab.NaturalLanguageValues{{Ref: vocab.NilLangRef, Value: vocab.Content(fmt.Sprintf("copy %d", n))}}}
+					}
+					other := func(n int) vocab.Item {
+						return &vocab.Object{ID: vocab.IRI(fmt.Sprintf("https://example.com/twins/other/%d", n)), Type: vocab.NoteType}
+					}
+					p := vmodel.Kinds[vmodel.KindIndex(kind)].New()
+					v := reflect.ValueOf(p).Elem()
+					v.FieldByName("ID").Set(reflect.ValueOf(vocab.IRI("https://example.com/twins/holder")))
+					v.FieldByName("Type").Set(reflect.ValueOf(vocab.ActivityVocabularyType(vmodel.Kinds[vmodel.KindIndex(kind)].SpecificType())))
+					set := func(f string, it vocab.Item) {
+						if fv := v.FieldByName(f); fv.IsValid() {
+							fv.Set(reflect.ValueOf(it))
+						}
+					}
+					switch share {
+					case "actor=object":
+						set("Actor", mk(1))
+						set("Object", mk(2))
+						set("Target", other(3))
+					case "target=object":
+						set("Actor", other(1))
+						set("Object", mk(2))
+						set("Target", mk(3))
+					case "target=actor":
+						set("Actor", mk(1))
+						set("Object", other(2))
+						set("Target", mk(3))
+					case "all":
+						set("Actor", mk(1))
+						set("Object", mk(2))
+						set("Target", mk(3))
+						set("Attachment", mk(4))
+					default:
+						v.FieldByName("Tag").Set(reflect.ValueOf(vocab.ItemCollection{mk(1), other(2), mk(3)}))
+						set("Actor", mk(4))
+					}
+					c.Count("twin-cases", 1)
+					runClean(c, p, fmt.Sprintf("%s with same-id copies (%s) in %s", kind, shape, share), true)
+				}},
 				{Name: "top-level-list", N: tierN(tier, 2000, 20000), Run: func(c *Ctx, idx int) {
 					// ItemCollection offers Clean() too: every member embedded by pointer is cleaned, value-form members cannot be
 					g := caseGen(c, false, idx)
